@@ -152,7 +152,18 @@ def build_many(specs):
 def prune_cache(keep_hashes=2):
     """Remove build directories older than a day to bound disk use."""
     now = time.time()
-    for sub in ("build", "obj"):
+    # scratch directories of earlier runs (kept when a run reported a violation)
+    if os.path.isdir(CACHE):
+        for d in os.listdir(CACHE):
+            p = os.path.join(CACHE, d)
+            if d in ("build", "obj", "olc", "tlc") or not os.path.isdir(p):
+                continue
+            try:
+                if now - os.path.getmtime(p) > 3 * 3600:
+                    shutil.rmtree(p, ignore_errors=True)
+            except OSError:
+                pass
+    for sub in ("build", "obj", "olc"):
         b = os.path.join(CACHE, sub)
         if not os.path.isdir(b):
             continue
